@@ -204,19 +204,9 @@ def check(ctx: Ctx) -> list[RuleResult]:
                             r3.ok({"write": f"self._multiplier = {norm(v)}", "interval": iv})
     if (lo, hi) != (0, 3):
         r3.fail("multiplier-range", repo.mod(F).rel, f"the back-off exponent ranges over {lo}..{hi}, expected 0..3 (factor 1..8)")
-    delays = [n for n in own_nodes(expire.node) if isinstance(n, ast.Assign) and norm(n.targets[0]) == "delay"]
-    for d in delays:
-        r3.instances += 1
-        r3.nontrivial += 1
-        v = d.value
-        ok = isinstance(v, ast.BinOp) and isinstance(v.op, ast.Mult) and norm(v.left) in ("self.echo_timeout", "self.reply_timeout") and norm(v.right) in ("2 ** self._multiplier", "(2 ** self._multiplier)")
-        if ok:
-            r3.ok({"delay": norm(v)})
-        else:
-            r3.fail(f"{expire.short}:delay={norm(v)[:40]}", expire.loc(d), "the retry wait is not <timeout> * 2**multiplier")
-    sleeps = [n for n in own_nodes(expire.node) if isinstance(n, ast.Await) and "asyncio.sleep(delay)" == norm(n.value)]
-    if len(delays) < 2 or len(sleeps) != 1:
-        raise AnalysisError("expire_state_on_timeout: delay definitions / sleep not found")
+    sleeps = [n for n in own_nodes(expire.node) if isinstance(n, ast.Await) and isinstance(n.value, ast.Call) and norm(n.value.func).endswith("sleep") and n.value.args]
+    if len(sleeps) != 1:
+        raise AnalysisError("expire_state_on_timeout: the timer sleep was not found")
     # net effect of one wait on the exponent, evaluated over the finite domain 0..3 established above (set-valued abstract
     # interpretation of the coroutine's own statements; nothing is executed): if the sleep completes (= the attempt went
     # unanswered) the exponent must end at min(3, m+1) - the *next* wait is twice as long, capped at 8x; if the sleep is
@@ -224,6 +214,18 @@ def check(ctx: Ctx) -> list[RuleResult]:
     r3.instances += 1
     r3.nontrivial += 1
     net = _net_effect(expire.node, sleeps[0])
+    # the wait itself: the value slept for, evaluated with stand-ins E/R for echo_timeout/reply_timeout, is {E, R} * 2**m
+    r3.instances += 1
+    r3.nontrivial += 1
+    dl = _net_effect(expire.node, sleeps[0], want_delay=True)
+    if dl is None:
+        r3.fail(f"{expire.short}:delay-undecided", expire.loc(sleeps[0]), "the retry wait is not an expression the evaluator understands (timeouts, 2**exponent, * + - min max)")
+    else:
+        badd = [f"m={m0}: waits {sorted(v)} (expected {sorted({_E * 2**m0, _R * 2**m0})} with echo_timeout={_E}, reply_timeout={_R})" for m0, v in sorted(dl.items()) if v != {_E * 2**m0, _R * 2**m0}]
+        if badd:
+            r3.fail(f"{expire.short}:delay", expire.loc(sleeps[0]), "the retry wait is not <echo|reply timeout> * 2**exponent", badd[:4])
+        else:
+            r3.ok({"delay": "echo_timeout|reply_timeout * 2**exponent for every exponent 0..3"})
     if net is None:
         r3.fail(f"{expire.short}:net-effect-undecided", expire.loc(), "the exponent's updates around the sleep are not in a shape the evaluator understands (assignments of min/max/+/- expressions)")
     else:
@@ -341,66 +343,87 @@ def _no_pending_edges(t: ast.AST) -> list[str]:
     return []
 
 
-def _net_effect(fn: ast.AST, sleep: ast.Await) -> "dict[int, tuple[set[int], set[int]]] | None":
-    """{m0: (exponent values when the sleep starts, values after the statements that follow a completed sleep)}."""
+_E, _R = 1009.0, 7919.0  # stand-ins for echo_timeout / reply_timeout (distinct primes, so products identify their factors)
+
+
+def _net_effect(fn: ast.AST, sleep: ast.Await, want_delay: bool = False) -> "dict | None":
+    """{m0: (exponent values when the sleep starts, values after the statements that follow a completed sleep)}, or with
+    want_delay {m0: set of values slept for}. A set-valued abstract interpretation of the coroutine's own statements."""
     body = list(fn.body)  # type: ignore[attr-defined]
     idx = next((i for i, st in enumerate(body) if any(n is sleep for n in ast.walk(st))), None)
     if idx is None or not isinstance(body[idx], ast.Expr):
         return None
     KEY = "self._multiplier"
+    SYM = {"self.echo_timeout": {_E}, "self.reply_timeout": {_R}}
 
     class Undecided(Exception):
         pass
 
-    def ev(e: ast.expr, env: dict[str, set[int]]) -> set[int]:
-        if isinstance(e, ast.Constant) and isinstance(e.value, int) and not isinstance(e.value, bool):
+    def ev(e: ast.expr, env: dict) -> set:
+        if isinstance(e, ast.Constant) and isinstance(e.value, (int, float)) and not isinstance(e.value, bool):
             return {e.value}
         if isinstance(e, (ast.Attribute, ast.Name)) and norm(e) in env:
             return set(env[norm(e)])
-        if isinstance(e, ast.BinOp) and isinstance(e.op, (ast.Add, ast.Sub)):
+        if isinstance(e, ast.Attribute) and norm(e) in SYM:
+            return set(SYM[norm(e)])
+        if isinstance(e, ast.BinOp) and isinstance(e.op, (ast.Add, ast.Sub, ast.Mult, ast.Pow)):
             a, b = ev(e.left, env), ev(e.right, env)
-            return {x + y if isinstance(e.op, ast.Add) else x - y for x in a for y in b}
+            if isinstance(e.op, ast.Pow) and any(abs(y) > 16 for y in b):
+                raise Undecided("pow")
+            f2 = {ast.Add: lambda x, y: x + y, ast.Sub: lambda x, y: x - y, ast.Mult: lambda x, y: x * y, ast.Pow: lambda x, y: x**y}[type(e.op)]
+            return {f2(x, y) for x in a for y in b}
+        if isinstance(e, ast.IfExp):
+            return ev(e.body, env) | ev(e.orelse, env)
         if isinstance(e, ast.Call) and norm(e.func) in ("min", "max") and len(e.args) == 2 and not e.keywords:
             a, b = ev(e.args[0], env), ev(e.args[1], env)
-            f2 = min if norm(e.func) == "min" else max
-            return {f2(x, y) for x in a for y in b}
+            f3 = min if norm(e.func) == "min" else max
+            return {f3(x, y) for x in a for y in b}
         raise Undecided(norm(e))
 
-    def touches(st: ast.AST, env: dict[str, set[int]]) -> bool:
-        for n in ast.walk(st):
-            if isinstance(n, (ast.Attribute, ast.Name)) and isinstance(getattr(n, "ctx", None), ast.Store) and (norm(n) == KEY or norm(n) in env):
-                return True
-        return False
+    def assign(k: str, v: ast.expr, rhs_env: dict, env: dict) -> None:
+        try:
+            env[k] = ev(v, rhs_env)
+        except Undecided:
+            if k == KEY:
+                raise
+            env.pop(k, None)  # a local we cannot follow: later uses of it are then undecided
 
-    def run(stmts: list[ast.stmt], env: dict[str, set[int]]) -> dict[str, set[int]]:
+    def run(stmts: list, env: dict) -> dict:
         for st in stmts:
             if isinstance(st, ast.Assign):
                 rhs_env = dict(env)  # tuple assignment evaluates the whole right-hand side first
                 for t, v in _pairs(st):
-                    k = norm(t)
-                    if k == KEY or k in env or (isinstance(t, ast.Name) and any(norm(x) in env for x in ast.walk(v) if isinstance(x, (ast.Name, ast.Attribute)))):
-                        env[k] = ev(v, rhs_env)
-            elif isinstance(st, ast.AugAssign) and (norm(st.target) == KEY or norm(st.target) in env):
-                fake = ast.BinOp(left=st.target, op=st.op, right=st.value)
-                env[norm(st.target)] = ev(fake, env)
+                    if isinstance(t, ast.Name) or norm(t) == KEY:
+                        assign(norm(t), v, rhs_env, env)
+            elif isinstance(st, ast.AnnAssign) and st.value is not None and (isinstance(st.target, ast.Name) or norm(st.target) == KEY):
+                assign(norm(st.target), st.value, dict(env), env)
+            elif isinstance(st, ast.AugAssign) and (isinstance(st.target, ast.Name) or norm(st.target) == KEY):
+                assign(norm(st.target), ast.BinOp(left=st.target, op=st.op, right=st.value), dict(env), env)
             elif isinstance(st, ast.If):
-                if touches(st, env):
-                    e1, e2 = run(st.body, dict(env)), run(st.orelse, dict(env))
-                    for k in set(e1) | set(e2):
+                e1, e2 = run(st.body, dict(env)), run(st.orelse, dict(env))
+                for k in set(e1) | set(e2):
+                    if k in e1 and k in e2:
+                        env[k] = e1[k] | e2[k]
+                    elif k == KEY:
                         env[k] = e1.get(k, set()) | e2.get(k, set())
+                    else:
+                        env.pop(k, None)
             elif isinstance(st, (ast.For, ast.While, ast.Try, ast.With, ast.AsyncWith, ast.AsyncFor)):
-                if touches(st, env):
+                if any(isinstance(n, (ast.Attribute, ast.Name)) and isinstance(getattr(n, "ctx", None), ast.Store) and norm(n) == KEY for n in ast.walk(st)):
                     raise Undecided(type(st).__name__)
         return env
 
-    out: dict[int, tuple[set[int], set[int]]] = {}
+    out: dict = {}
     try:
         for m0 in range(4):
             env = run(body[:idx], {KEY: {m0}})
+            if want_delay:
+                out[m0] = ev(sleep.value.args[0], env)  # type: ignore[union-attr]
+                continue
             at_sleep = set(env[KEY])
             env = run(body[idx + 1 :], env)
             out[m0] = (at_sleep, set(env[KEY]))
-    except Undecided:
+    except (Undecided, KeyError):
         return None
     return out
 
